@@ -24,8 +24,8 @@ from esim.simfile import SimFile
 from . import base
 
 ID = "C10"
-QUICK_RUNS = 5000
-THOROUGH_RUNS = 300000
+QUICK_RUNS = 12000
+THOROUGH_RUNS = 500000
 LEVEL = "exploration"
 RULE = ("one run = one generated program whose field values are drawn from boundary pools of the JSON-native "
         "domain (nesting <= 4) and the documented rich types, logged through a binary-mode, a text-mode and a "
